@@ -104,19 +104,19 @@ _STATE_BOX: list = [None]
 _ROUND_HOOK: list = [None]
 
 
+_REAL: dict = {}
+
+
 def install_seams() -> None:
+    """(re)install the SimCluster seams; idempotent, and safe to interleave with vcluster runs in one process"""
     global _installed
-    if _installed:
-        return
-    seam(memory_mod, "shm_client")
-    seam(memory_mod, "callback")
-    seam(entrypoint, "callback")
-    seam(impl, "initialize")
-    seam(impl, "mark")
+    if not _REAL:
+        for mod, name in ((memory_mod, "shm_client"), (memory_mod, "callback"), (entrypoint, "callback"), (impl, "initialize"), (impl, "mark")):
+            _REAL[(mod.__name__, name)] = seam(mod, name)
     memory_mod.shm_client = _FACADE
     memory_mod.callback = _capture
     entrypoint.callback = _capture
-    real_init = impl.initialize
+    real_init = _REAL[(impl.__name__, "initialize")]
 
     def init_capture(*a, **k):
         st = real_init(*a, **k)
@@ -132,6 +132,16 @@ def install_seams() -> None:
 
     impl.mark = mark_hook
     _installed = True
+
+
+def uninstall_seams() -> None:
+    """give the modules their real attributes back (vcluster runs the real worker/controller plumbing)"""
+    global _installed
+    for mod in (memory_mod, entrypoint, impl):
+        for (mname, name), val in _REAL.items():
+            if mname == mod.__name__:
+                setattr(mod, name, val)
+    _installed = False
 
 
 # ---------------------------------------------------------------- configuration
@@ -578,7 +588,7 @@ class Execution:
             sim.viol("C03", "too_many_rounds", "rounds exceed the events+commands bound", f"{sim.rounds} > {bound}")
 
 
-def explore(cfg: Config, max_exec: int = 0, prune: bool = True, deadline: float = 0.0) -> dict:
+def explore(cfg: Config, max_exec: int = 0, prune: bool = True, deadline: float = 0.0, keep_traces: int = 0) -> dict:
     """DFS over all choice sequences of one configuration. Returns stats and violations."""
     seen: set | None = set() if prune else None
     stack: list[list[int]] = [[]]
@@ -588,6 +598,7 @@ def explore(cfg: Config, max_exec: int = 0, prune: bool = True, deadline: float 
     viols: dict[str, tuple[str, dict, str, list[int]]] = {}
     sample = None
     cmd_shapes: set = set()
+    traces: list = []
     while stack:
         if (max_exec and stats["executions"] >= max_exec) or (deadline and time.time() > deadline):
             stats["capped"] = True
@@ -606,7 +617,10 @@ def explore(cfg: Config, max_exec: int = 0, prune: bool = True, deadline: float 
         elif ex.status in ("returned", "raised"):
             stats["terminal"] += 1
             outcomes.add(ex.outcome if ex.status == "returned" else ("raised", repr(ex.exc)[:120]))
-            cmd_shapes.add(tuple(l[0] for l in ex.sim.log))
+            shape = tuple(l[0] for l in ex.sim.log)
+            if shape not in cmd_shapes and ex.status == "returned" and len(traces) < keep_traces and not ex.sim.violations:
+                traces.append(list(prefix))
+            cmd_shapes.add(shape)
             if sample is None and ex.status == "returned":
                 sample = {"config": cfg.label(), "choices": list(prefix), "trace": ex.sim.log}
         elif ex.status == "aborted":
@@ -622,7 +636,7 @@ def explore(cfg: Config, max_exec: int = 0, prune: bool = True, deadline: float 
     if not prune:
         stats["states"] = stats["executions"]
     return {"stats": stats, "violations": list(viols.values()), "sample": sample, "label": cfg.label(),
-            "outcome_set": sorted(map(repr, outcomes))}
+            "outcome_set": sorted(map(repr, outcomes)), "traces": traces}
 
 
 def replay_one(cfg: Config, choices: list[int]) -> Execution:
